@@ -841,3 +841,48 @@ PROPERTIES["C19"] = {
             "strconv/fmt. Non-trivial: a finite non-integral first argument.",
     "assumptions": ["results are observed through the function table a fresh runner builds (same code path as a script call)"],
 }
+
+
+# ------------------------------------------------------------------ bridge (C16)
+def bridge_oracle(case, obs, exp):
+    if tag(obs) in ("CRASH", "HARNESS-PANIC"):
+        return "violation", "the process died while registering or calling"
+    if tag(obs) == "reg":
+        if str(obs[1]) == "panic":
+            return "violation", "registration panicked"
+        if str(obs[1]) == "ok":
+            for i, c in enumerate(obs[2]):
+                if tag(c[0]) == "panic":
+                    return "violation", "call %d of the accepted function panicked in the bridge" % i
+                if tag(c[0]) == "hang":
+                    return "violation", "call %d: the command's channel never delivered" % i
+            if tag(case[2]) in ("nil", "nonfunc", "nilfunc"):
+                return "violation", "a %s value was accepted at registration" % tag(case[2])
+    return "unknown", "no panic, but registration/conversion results differ from the model's"
+
+
+def bridge_features(case):
+    reg = case[2]
+    labels = ["kind:" + str(case[1]), "reg:" + tag(reg)]
+    nontrivial = False
+    if tag(reg) in ("func", "nilfunc"):
+        sig = reg[1]
+        labels += ["params=%d" % len(sig[0]), "variadic" if sig[1] else "fixed", "results=%d" % len(sig[2])]
+        if any(str(t).startswith("My") for t in sig[0] + sig[1]):
+            labels.append("named-param")
+        nontrivial = len(sig[0]) + len(sig[1]) >= 1
+    return sexp.dump(case[1:3]) + sexp.dump(case[5]), nontrivial, labels
+
+
+FAMILIES["bridge"] = {"oracle": bridge_oracle, "features": bridge_features,
+                      "shrink": lambda c: [c[:5] + [r] for r in drop_each(c[5])]}
+PROPERTIES["C16"] = {
+    "families": [("bridge", 3000, 100000)],
+    "rule": "Go function types built with reflect.FuncOf/MakeFunc: 0-3 parameters and an optional variadic tail over "
+            "{int, int8..int64, float32, float64, bool, string, their named variants, uint, struct, slice, pointer, any, "
+            "error}, 0-3 results over value kinds, error, a struct implementing error, channels of every direction/"
+            "element/named-ness; plus nil, a non-function and a nil function value. Each accepted one is called with 2-6 "
+            "argument lists (fitting ones, one short, one long, arbitrary). Compared: registration outcome, per call "
+            "value/error/panic and the arguments the probe received (kind, named-ness, value). Non-trivial: >= 1 parameter.",
+    "assumptions": ["narrowing float->int conversions outside the target range follow amd64 (CVTTSD2SQ/CVTTSD2SL)"],
+}
